@@ -21,6 +21,14 @@ followed by a history of 1-12 bursts of external 'put' events to the sources; a 
 puts sent in one instant (no yield to the event loop): single toggles, several sources, and long
 bursts of 4-16 toggles of one or a few sources (also ending in the initial value), most often
 on small acyclic networks where the limit (a multiple of the number of blocks) is low.
+15% of the runs give one source an additional on_output event that its recipient refuses
+(unknown event type for the new value True, False or both, via EventCond): EdzedUnknownEvent is
+documented as non-fatal, the driver tolerates it coming out of ExtEvent.send(); the source has
+changed nevertheless and the network must be re-evaluated before the simulator pauses.
+15% of the runs let one block request the end of the simulation from INSIDE an evaluation round
+(on_output event 'shutdown' or 'abort' to '_ctrl', filtered by Edge / not_from_undef), in stable
+and in unstable networks: abort() only cancels the simulator task, which takes effect at its
+next await, so in an oscillating round the evaluation limit is still what must end the loop.
 hash_salt (iteration order of the simulator's set of blocks to evaluate) is part of the plan.
 
 Oracle (reference: checks/cyclib.py, written from the documentation):
@@ -31,7 +39,10 @@ Oracle (reference: checks/cyclib.py, written from the documentation):
       if brute force over all <= 2^N assignments finds *no* consistent assignment for the
       current source values the more specific 'instability-not-detected' is reported;
   (b) simulation ended => the error is the 'instability' EdzedCircuitError; anything else is
-      'unexpected-error';
+      'unexpected-error' - except that after an in-round stop request (observed by a pass-through
+      event filter) ending with the requested stop (cancellation / the abort error of '_ctrl')
+      is as legal as the instability error (which error wins is C09's business); the bound
+      (d) on the evaluations of the round applies all the same;
   (c) instability reported for an acyclic network (event edges included) whose path-count
       bound for that burst (sum over blocks of the number of paths from the changed sources;
       +1 per block in the start-up burst) is <= MARGIN * number-of-blocks => 'false-instability'.
@@ -114,7 +125,9 @@ RULE = ("one run = one random network of 1-9 (thorough: -11) Not/Xor/And/identit
         "on_output->Input 'put' events (plain / negating filter / two-Input chain), 32% acyclic "
         "with reconvergent fan-out and forward event edges; creation order shuffled, hash_salt "
         "drawn per run; then 1-12 bursts of external puts (single toggle, several sources, "
-        "several changes of one source, no change, long bursts of 4-16 toggles in one instant); run indices below 1500 use 1-3 blocks so the "
+        "several changes of one source, no change, long bursts of 4-16 toggles in one instant); 15% of "
+        "the runs: a source whose extra on_output event is refused (EdzedUnknownEvent) for one or "
+        "both values; 15%: a block that sends shutdown/abort to '_ctrl' from inside a round; run indices below 1500 use 1-3 blocks so the "
         "small shapes are covered densely; non-trivial = the network has a cycle (direct or "
         "through events) or at least one burst after start-up evaluated a block; distinct = hash "
         "of (kind, block ops with fan-in in creation order, number of event inputs, per burst: "
@@ -128,6 +141,8 @@ REACH_EXPECTED = [
     'stable_then_unstable_history', 'const_input_idle', 'const_only_block_idle',
     'const_only_block_in_cycle', 'long_burst_within_bound', 'long_burst_small_net',
     'long_burst_back_to_initial', 'acyclic_block_evaluated_4x_within_bound',
+    'refused_output_event_then_consistent', 'stopped_on_request_shutdown',
+    'stopped_on_request_abort', 'stop_request_in_unstable_round', 'stop_request_in_stable_round',
 ]
 ASSUMPTIONS = [
     "boolean values only; block semantics taken from the documentation: Not, And (all), Xor "
@@ -176,12 +191,28 @@ def _real_input(i):
     return i
 
 
-def build(plan, net):
+PICKY_ETYPE = {'T': ('bogus', 'put'), 'F': ('put', 'bogus')}
+
+
+def _stop_filters(when, mark):
+    flt = {'rise': [edzed.Edge(rise=True)], 'rise_nu': [edzed.Edge(rise=True, u_rise=False)],
+           'fall': [edzed.Edge(fall=True)], 'any': [edzed.not_from_undef], 'all': []}[when]
+    return flt + [mark]
+
+
+def build(plan, net, mark_stop):
     """Create the real circuit. Returns dicts of the created blocks."""
     blk = {}
     try:
         for name, init in net.srcs:
-            blk[name] = edzed.Input(name, initdef=init)
+            kw = {}
+            if name in net.picky:
+                # the event type is unknown to the recipient for one (or both) of the values
+                mode = net.picky[name]
+                etype = 'bogus' if mode == 'both' else edzed.EventCond(*PICKY_ETYPE[mode])
+                blk[name + 'p'] = edzed.Input(name + 'p', initdef=False)
+                kw['on_output'] = edzed.Event(name + 'p', etype, efilter=edzed.not_from_undef)
+            blk[name] = edzed.Input(name, initdef=init, **kw)
         feeds = collections.defaultdict(list)
         for e in net.evin:
             first = e['name']
@@ -193,7 +224,12 @@ def build(plan, net):
             feeds[e['frm']].append(
                 edzed.Event(first, 'put', efilter=_negate if e['inv'] else None))
         for name, op, ins in net.blocks:
-            kw = {'on_output': feeds[name]} if name in feeds else {}
+            events = list(feeds.get(name, []))
+            if name in net.stops:
+                ev, when, first = net.stops[name]
+                stop = edzed.Event('_ctrl', ev, efilter=_stop_filters(when, mark_stop))
+                events.insert(0 if first else len(events), stop)
+            kw = {'on_output': events} if events else {}
             if op == 'not':
                 b = edzed.Not(name, **kw)
             elif op == 'and':
@@ -218,14 +254,20 @@ def execute(plan, trace=False):
         raise PlanError(str(err)) from None
     run = Run(plan['knobs'], max_steps=MAX_STEPS)
     try:
-        blk = build(plan, net)
+        st = {'stop_req': 0}
+
+        def mark_stop(data):
+            # pass-through event filter (last in the chain): a stop request is being sent
+            st['stop_req'] += 1
+            return data
+        blk = build(plan, net, mark_stop)
         circuit = edzed.get_circuit()
-        nall = len(list(circuit.getblocks()))
+        nall = len(list(circuit.getblocks())) + (1 if net.stops else 0)    # + '_ctrl'
         if nall != net.nall:
             raise PlanError(f"circuit has {nall} blocks, plan describes {net.nall}")
         wd_limit = WATCHDOG_PER_BLOCK * nall
-        st = {'evals': 0, 'order': [], 'per': collections.Counter(), 'wd': False,
-              'post_init_evals': 0, 'was_idle_ok': False}
+        st.update({'evals': 0, 'order': [], 'per': collections.Counter(), 'wd': False,
+                   'post_init_evals': 0, 'was_idle_ok': False, 'refused': 0})
 
         cyc_kind = ('acyclic' if net.acyclic else
                     'event-loop' if net.acyclic_direct else 'combinational-loop')
@@ -311,6 +353,9 @@ def execute(plan, trace=False):
                 run.beh(sat is not None, 'idle', evals)
                 if ok:
                     st['was_idle_ok'] = True
+                    if st['refused']:
+                        st['refused'] = 0
+                        run.fired('reach:refused_output_event_then_consistent')
                     if net.has_const:
                         run.fired('reach:const_input_idle')
                     if net.const_only:
@@ -349,6 +394,17 @@ def execute(plan, trace=False):
             run.log('ended', label, err)
             if isinstance(err, Watchdog):
                 run.beh(sat is not None, 'watchdog')
+                return False
+            if st['stop_req'] and not _is_instability(err) and (
+                    err is None or (isinstance(err, edzed.EdzedCircuitError)
+                                    and 'error reported by' in str(err))):
+                # a block asked '_ctrl' to stop the simulation from inside the round: ending
+                # with that request is legal whatever the network does (the evaluations of
+                # the round were bounded, otherwise the watchdog would have fired)
+                run.beh(sat is not None, 'stopped', err is None)
+                run.fired('reach:stopped_on_request_' + ('shutdown' if err is None else 'abort'))
+                run.fired('reach:stop_request_in_unstable_round' if sat is None
+                          else 'reach:stop_request_in_stable_round')
                 return False
             if not _is_instability(err):
                 run.beh(sat is not None, 'other-error')
@@ -414,7 +470,10 @@ def execute(plan, trace=False):
                     try:
                         edzed.ExtEvent(src, 'put').send(bool(val))
                     except Exception as err:    # pylint: disable=broad-except
+                        # EdzedUnknownEvent from a refused output event: non-fatal, tolerated
                         run.log('put-exc', name, err)
+                        if isinstance(err, edzed.EdzedUnknownEvent):
+                            st['refused'] += 1
                     if src.output != before:
                         changes[name] += 1
                 if sum(changes.values()) > 1:
